@@ -48,8 +48,9 @@ def run(ctx):
     ctx.floor("arm-skeleton", n, 14, "arms with a skeleton row")
     # every arm produces its result only at the tabulated sites: (explicit Ok(..) sites, tail calls)
     SITES = {"Field": (1, 0), "Identity": (1, 0), "Literal": (1, 0), "Index": (2, 0), "Or": (1, 1), "And": (1, 1), "Not": (1, 0),
-             "Condition": (1, 1), "Comparison": (1, 0), "ObjectValues": (2, 0), "Projection": (2, 0), "Flatten": (2, 0),
+             "Condition": (1, 1), "Comparison": (2, 0), "ObjectValues": (2, 0), "Projection": (2, 0), "Flatten": (2, 0),
              "MultiList": (2, 0), "MultiHash": (2, 0), "Expref": (1, 0), "Slice": (2, 0), "Subexpr": (0, 1)}
+    # (Comparison: one wrapped site or one per answer of compare(); the mapping row looks at every result term)
     for v, (noks, ntails) in SITES.items():
         arm = ip.arms.get(v)
         if arm is None:
@@ -316,6 +317,11 @@ def arm_Flatten(ctx, ip, arm):
     outer = lambda t: t[0] == "elem" and t[1][0] == "view" and t[1][1] == "array" and ip.is_res({t[1][2]}, "Flatten.node")
     pushes = [(x, t) for x, t in arm.calls if t["callee"].endswith("Vec::<T, A>::push")]
     exts = [(x, t) for x, t in arm.calls if t["callee"] == "std::iter::Extend::extend" or t["callee"].endswith("Vec::<T, A>::extend_from_slice")]
+    if not pushes and not exts and len(arm.recursive) == 1:
+        # the same as an iterator chain: outer.iter().flat_map(|e| match e.as_array() { Some(a) => a.as_slice(),
+        # None => slice::from_ref(e) }).cloned().collect() — each element contributes its own elements if it is an array
+        # and itself otherwise, in order, one level
+        return _flatten_chain(ctx, ip, arm, blk, some_t, outer)
     ok = len(pushes) == 1 and len(exts) == 1 and len(arm.recursive) == 1
     chk(ctx, ip, arm, "one-level", ok, f"exactly one push site, one extend site and no evaluation inside the loop (pushes {len(pushes)}, extends {len(exts)}, evaluations {len(arm.recursive)})")
     if not ok:
@@ -344,6 +350,62 @@ def arm_Flatten(ctx, ip, arm):
     arr = [(ob, t) for ob, t in arm.oks if edge_dominates(b, (blk, some_t), ob)]
     ok = len(arr) == 1 and len(dests) == 1 and all(t[0] == "agg" and t[1] == V + "::Array" and set(t[2][0]) == dests for t in arr[0][1])
     chk(ctx, ip, arm, "result", ok, "the result is the array collected that way")
+
+
+def _flatten_chain(ctx, ip, arm, blk, some_t, outer):
+    from ..decision import Undecided, Walker
+    b = ip.b
+    arr = [(ob, t) for ob, t in arm.oks if edge_dominates(b, (blk, some_t), ob)]
+    ok = len(arr) == 1
+    shape = splice = keep = False
+    if ok:
+        for t in arr[0][1]:
+            if not (t[0] == "agg" and t[1] == V + "::Array" and len(t[2]) == 1):
+                continue
+            for c in t[2][0]:
+                if not (c[0] == "call" and c[1] == "std::iter::Iterator::collect" and len(c[2]) == 1 and len(c[2][0]) == 1):
+                    continue
+                fm = next(iter(c[2][0]))
+                # cloned() keeps the base term: the flat_map call itself, or iter(flat_map)
+                if fm[0] == "iter":
+                    fm = fm[1]
+                if not (fm[0] == "call" and fm[1] == "std::iter::Iterator::flat_map" and len(fm[2]) == 2):
+                    continue
+                srcs, fs_ = fm[2]
+                if not (srcs and all(x[0] == "iter" and x[1][0] == "view" and x[1][1] == "array" and ip.is_res({x[1][2]}, "Flatten.node") for x in srcs)):
+                    continue
+                clo = [x for x in fs_ if x[0] == "closure"]
+                if len(clo) != 1 or len(fs_) != 1:
+                    continue
+                cb = ip.lib.fn(clo[0][1])
+                if cb is None:
+                    continue
+                shape = True
+                co = Origins(cb, ip.lib)
+                ELEMP = ("param", 2)
+                res = {}
+                for case in ("Some", "None"):
+                    def atom(tt, case=case):
+                        if tt[0] == "discr" and tt[1][0] == "view" and tt[1][1] == "array" and tt[1][2] == ELEMP:
+                            return case
+                        return None
+                    w = Walker(cb, co, atom=atom)
+                    try:
+                        out = set()
+                        for path, leaf in w.walk():
+                            out |= set(w.result_on_path(path))
+                        res[case] = out
+                    except Undecided:
+                        res[case] = None
+                from ..analysis import strip_through
+                splice = res.get("Some") is not None and bool(res["Some"]) and all(strip_through(x) == ("view", "array", ELEMP) for x in res["Some"])
+                keep = res.get("None") is not None and bool(res["None"]) and all(
+                    x[0] == "call" and x[1].endswith("slice::from_ref") and set(x[2][0]) == {ELEMP} for x in res["None"])
+    chk(ctx, ip, arm, "one-level", ok and shape, "the result is collect(cloned(flat_map(elements of the evaluated node, f))) — one level, no evaluation per element")
+    chk(ctx, ip, arm, "non-array-element-kept", keep, "a non-array element is pushed as it is")
+    chk(ctx, ip, arm, "array-element-spliced", splice, "an array element contributes its own elements (one level, not recursively flattened)")
+    chk(ctx, ip, arm, "branching", splice and keep, "splicing happens exactly for array elements, pushing for all others")
+    chk(ctx, ip, arm, "result", ok and shape, "the result is the array collected that way")
 
 
 def _multi(ctx, ip, arm, elems_field, value_suffix, container, adder, new_fn):
